@@ -12,6 +12,8 @@ import (
 	kcp "github.com/xtaci/kcp-go/v5"
 	"pgregory.net/rapid"
 	"verif/harness/hx"
+	"verif/harness/sim"
+	"verif/harness/wire"
 )
 
 const c16KeyNonOriginal = "C16:non-original-emission-before-convergence"
@@ -345,4 +347,106 @@ func TestC16KnownWrapDelay(t *testing.T) {
 	if converged > bound {
 		rec.Finding(c16KeyWrapDelay, fmt.Sprintf("sender 1/2, receiver 22/28, one straggler then an uninterrupted run starting 230 ids below the receiver's wrap value: ratio adopted after %d packets, bound 258+2(d+p) = %d", converged, bound))
 	}
+}
+
+// TestC16SessionLazyDecoder: FEC enabled at the sender only. The receiving
+// session creates a 1/1 decoder when the first FEC packet arrives; that decoder
+// must live on, see an uninterrupted run of the sender's packets, adopt the
+// sender's ratio within the stated bound and recover losses from then on - at
+// session level, through the real input path (the codec-level tests drive a
+// decoder object directly and cannot see what the session does with it).
+// The network is loss-free until convergence so that the listed finding about
+// emissions before convergence stays out of the picture; then single data
+// packets are dropped and must be recovered by FEC.
+func TestC16SessionLazyDecoder(t *testing.T) {
+	rec := hx.NewRecorder(t)
+	rapid.Check(t, func(rt *rapid.T) {
+		d := rapid.IntRange(1, 10).Draw(rt, "d")
+		q := rapid.IntRange(1, 3).Draw(rt, "p")
+		cipher := rapid.SampledFrom([]string{"null", "aes-128", "aes-128-gcm", "salsa20"}).Draw(rt, "cipher")
+		key := rapid.SliceOfN(rapid.Byte(), wire.KeyLen(cipher), wire.KeyLen(cipher)).Draw(rt, "key")
+		listener := rapid.Bool().Draw(rt, "listener")
+		conv := rapid.Uint32().Draw(rt, "conv")
+		bound := 258 + 2*(d+q)
+		nmsg := bound + 40 + rapid.IntRange(0, 200).Draw(rt, "extra")
+		var convergedAfter, recovered int
+		var recoveredBefore uint64
+		rapid.SyncTest(rt, func(rt *rapid.T) {
+			s := sim.NewSessSim(0, 16)
+			cfg := sim.PairCfg{Cipher: cipher, Key: key, Conv: conv, Listener: listener, EntropySeed: 16,
+				FEC:  [2][2]int{{d, q}, {0, 0}},
+				Opts: [2]sim.SessOpts{{SndWnd: 1024, RcvWnd: 1024, NoDelay: 1, Interval: 10, Resend: 2, NC: 1}, {SndWnd: 1024, RcvWnd: 1024, NoDelay: 1, Interval: 10, Resend: 2, NC: 1}}}
+			var app [2]sim.AppScript
+			for i := 0; i < nmsg; i++ {
+				app[0].Writes = append(app[0].Writes, 200) // one small message per datagram: the flush interval separates them
+				app[0].GapMs = append(app[0].GapMs, 12)
+			}
+			p, err := sim.NewPair(s, cfg, app)
+			if err != nil {
+				rt.Fatalf("setup: %v", err)
+			}
+			defer p.Finish(nil)
+			dataSeen, dropNext := 0, false
+			s.OnSent = func(dg *sim.Sent, from, to string, f *sim.Fate) error {
+				if from != p.Addr[0].String() {
+					return nil
+				}
+				_, pl, err := p.Crypto.Open(dg.Data)
+				if err != nil {
+					return err
+				}
+				fr, err := wire.ParseFrame(pl, true)
+				if err != nil {
+					return err
+				}
+				if fr.Type == wire.TypeData || fr.Type == wire.TypeParity {
+					dataSeen++
+				}
+				if y := p.Sess[1]; y != nil && convergedAfter == 0 {
+					if st := y.VerifFEC(); st.HasDecoder && st.DecData == d && st.DecParity == q && !st.ShouldTune {
+						convergedAfter = dataSeen
+						recoveredBefore = kcp.DefaultSnmp.Copy().FECRecovered
+					}
+				}
+				// after convergence: lose one data packet of every third group
+				if convergedAfter > 0 && fr.Type == wire.TypeData && int(fr.SeqID)%(d+q) == 0 && (int(fr.SeqID)/(d+q))%3 == 0 && !dropNext {
+					*f = sim.Fate{}
+				}
+				return nil
+			}
+			err = p.Run(int64(nmsg)*12+60_000, false)
+			if err != nil {
+				rt.Fatalf("C16 (session, FEC %d/%d at the sender only): %v", d, q, err)
+			}
+			y := p.Sess[1]
+			if y == nil {
+				rt.Fatalf("C16 (session): no receiving session")
+			}
+			st := y.VerifFEC()
+			if convergedAfter == 0 {
+				rt.Fatalf("C16 (session): after an uninterrupted run of %d FEC packets of a %d/%d sender the receiving session (no FEC configured) has not adopted the ratio (bound 258+2(d+p) = %d): decoder present=%v, ratio %d/%d, tuning pending=%v", dataSeen, d, q, bound, st.HasDecoder, st.DecData, st.DecParity, st.ShouldTune)
+			}
+			if convergedAfter > bound+2*(d+q) {
+				rt.Fatalf("C16 (session): the receiving session adopted the sender's ratio %d/%d only after %d packets, bound %d", d, q, convergedAfter, bound)
+			}
+			recovered = int(kcp.DefaultSnmp.Copy().FECRecovered - recoveredBefore)
+			if !p.Complete() {
+				rt.Fatalf("C16 (session): the stream did not arrive completely")
+			}
+			if recovered == 0 && nmsg-convergedAfter > 4*(d+q) {
+				rt.Fatalf("C16 (session): ratio adopted after %d packets, then one data packet of every third group was lost over %d more packets: not one was recovered by FEC", convergedAfter, dataSeen-convergedAfter)
+			}
+		})
+		cl := []string{"cipher_" + cipher, fmt.Sprintf("sender_%d_%d", d, q)}
+		if listener {
+			cl = append(cl, "receiver_is_an_accepted_session")
+		}
+		if recovered > 0 {
+			cl = append(cl, "losses_recovered_after_convergence")
+		}
+		rec.Case(hx.Hash64(d, q, cipher, listener, conv, nmsg), recovered > 0, cl...)
+		if rec.WantSample() {
+			rec.Sample(map[string]any{"sender": []int{d, q}, "receiver": "no FEC configured", "converged_after_packets": convergedAfter, "bound": bound, "recovered_after": recovered, "cipher": cipher})
+		}
+	})
 }
